@@ -255,6 +255,15 @@ def m_opt_eq(ex, f, a):
     else: r = eq_typed(ex, Ref(x.fields, 0), Ref(y.fields, 0), it)
     return r if f.endswith('eq') else znot(r)
 
+def str_cmp(ex, xs, ys):
+    """lexicographic comparison of code-point lists (= Rust's bytewise str order), forking on symbolic positions"""
+    for p, q in zip(xs, ys):
+        if is_sym(p) or is_sym(q):
+            k = ex.choose([(zi(p) < zi(q), -1), (zi(p) == zi(q), 0), (zi(p) > zi(q), 1)], exhaustive=True)
+            if k != 0: return k
+        elif p != q: return -1 if p < q else 1
+    return (len(xs) > len(ys)) - (len(xs) < len(ys))
+
 def eq_typed(ex, x, y, ty):
     """`<ty as PartialEq>::eq(&x, &y)`: workspace impls run from MIR; std containers elementwise; scalars/strings directly"""
     ty = ty.strip()
@@ -325,6 +334,11 @@ def m_eq(ex, f, a):
 @pattern(r'^<(.+) as (PartialOrd|Ord)(<.*>)?>::(lt|le|gt|ge|cmp|partial_cmp|max|min)$', prio=9)
 def m_ord(ex, f, a):
     x, y = ex.deref(a[0]), ex.deref(a[1]); op = f.rsplit('::', 1)[1]
+    if isinstance(x, Str) and isinstance(y, Str) and any(is_sym(c) for c in x.chars + y.chars):
+        c = str_cmp(ex, x.chars, y.chars)
+        if op in ('cmp', 'partial_cmp'):
+            o = Agg('Ordering', c + 1, []); return o if op == 'cmp' else some(o)
+        return {'lt': c < 0, 'le': c <= 0, 'gt': c > 0, 'ge': c >= 0}[op]
     if isinstance(x, Str) or isinstance(x, Agg):
         kx, ky = sort_key(ex, x), sort_key(ex, y)
         if op in ('cmp', 'partial_cmp'):
@@ -377,6 +391,13 @@ def m_from(ex, f, a):
 # ----------------------------------------------------------------------------- Vec / slices
 @exact('Vec::new', 'Vec::with_capacity', 'VecDeque::new', 'VecDeque::with_capacity')
 def m_vec_new(ex, f, a): return PyVec([])
+@pattern(r'^<&?bool as Not>::not$')
+def m_bool_not(ex, f, a): return znot(ex.deref(a[0]))
+@exact('std::vec::from_elem', 'alloc::vec::from_elem', 'vec::from_elem')
+def m_vec_from_elem(ex, f, a):
+    n = a[1]
+    if is_sym(n): n = ex.concretize(n, 'vec![x; n] length')
+    return PyVec([deep_clone(ex, a[0]) for _ in range(n)])
 @exact('Vec::push', 'VecDeque::push_back')
 def m_vec_push(ex, f, a): ex.deref(a[0]).items.append(a[1]); return UNIT
 @exact('VecDeque::push_front')
@@ -541,8 +562,22 @@ def m_slice_starts(ex, f, a):
     if len(pre) > len(it): return False
     seg = it[:len(pre)] if f.endswith('starts_with') else it[len(it) - len(pre):]
     return zand(*[veq(ex, x, y) for x, y in zip(seg, pre)])
-@pattern(r'^core::slice::<impl \[.*\]>::(binary_search|position)')
-def m_slice_unsup(ex, f, a): raise Unsupported('model: ' + f)
+@pattern(r'^core::slice::<impl \[.*\]>::binary_search$')
+def m_slice_binary_search(ex, f, a):
+    # std's algorithm on the slice as it is (a mis-sorted table gives std's answer, not the linear-search one)
+    it = _items(ex, a[0]); x = ex.deref(a[1])
+    size = len(it)
+    if size == 0: return err(0)
+    base = 0
+    def cmp(i):
+        o = m_ord(ex, '<T as Ord>::cmp', [Ref(it, i), x] if not isinstance(it[i], Ref) else [it[i], x]); return o.idx     # 0 Less 1 Equal 2 Greater
+    while size > 1:
+        half = size // 2; mid = base + half
+        base = base if cmp(mid) == 2 else mid
+        size -= half
+    c = cmp(base)
+    if c == 1: return ok(base)
+    return err(base + (1 if c == 0 else 0))
 @pattern(r'^core::array::<impl \[.*\]>::(map|as_slice|iter)')
 def m_array(ex, f, a):
     if f.endswith('as_slice') or '::as_slice' in f: return a[0]
